@@ -3,26 +3,31 @@
 # 1. extracts patch + demo from the worktree into /verif/seeded/<id>/
 # 2. confirms: demo FAILS with the patch, PASSES without; package tests of the touched packages pass with the patch
 # 3. runs ./check <property> against the worktree (patch applied) and records the outcome
+# (no git stash: the stash is shared between all worktrees of a repository)
 set -u
 id=$1; prop=$2; wt=$3; tier=${4:-quick}
 export GOFLAGS=-mod=mod GOPROXY=off GOSUMDB=off GOTOOLCHAIN=local
 out=/verif/seeded/$id; mkdir -p $out
 cd $wt || exit 2
-git diff > $out/patch.diff
+git diff -- . ':!consensus/verif_on.go' ':!consensus/verif_off.go' > $out/patch.diff
+[ -s $out/patch.diff ] || { echo "empty patch"; exit 2; }
 demo=$(git status --short | grep zz_seeded_demo_test.go | awk '{print $2}' | head -1)
 [ -z "$demo" ] && { echo "no demo file"; exit 2; }
 cp $demo $out/$(basename $demo)
 cp SEEDED.md $out/SEEDED.md 2>/dev/null
 pkg=./$(dirname $demo)
-pkgs=$(git diff --name-only | xargs -n1 dirname | sort -u | sed 's|^|./|' | tr '\n' ' ')
+pkgs=$(grep '^+++ b/' $out/patch.diff | sed 's|+++ b/||' | xargs -n1 dirname | sort -u | sed 's|^|./|' | tr '\n' ' ')
 echo "== demo with patch (expect FAIL)"
 go test -vet=off -count=1 -run 'TestSeededDemo$' -timeout 20m $pkg > $out/demo_with.log 2>&1; rc_with=$?
-git stash -q
+git apply -R $out/patch.diff || { echo "cannot revert patch"; exit 2; }
 echo "== demo without patch (expect PASS)"
 go test -vet=off -count=1 -run 'TestSeededDemo$' -timeout 20m $pkg > $out/demo_without.log 2>&1; rc_without=$?
-git stash pop -q
+git apply $out/patch.diff || { echo "cannot re-apply patch"; exit 2; }
 echo "== existing tests of touched packages with patch: $pkgs"
 go test -vet=off -count=1 -skip 'TestSeededDemo' -timeout 40m $pkgs > $out/pkgtests.log 2>&1; rc_pkg=$?
+if [ $rc_pkg != 0 ]; then   # timing-sensitive tests on a loaded machine: one retry
+  go test -vet=off -count=1 -skip 'TestSeededDemo' -timeout 40m $pkgs > $out/pkgtests.log 2>&1; rc_pkg=$?
+fi
 # worktrees created before the hook commit lack the (guarded, add-only) verif hook: add it for the check only
 if [ ! -f $wt/consensus/verif_on.go ]; then
   git -C /repo diff 7f1e1df^ 7f1e1df | git -C $wt apply && hook_added=1
@@ -31,9 +36,10 @@ echo "== check $prop ($tier) against patched tree"
 cd /verif
 VERIF_REPO=$wt VERIF_EVIDENCE_DIR=/tmp/ev-$id VERIF_REPLAYS=/tmp/rp-$id ./check $prop --tier $tier > $out/check.log 2>&1; rc_check=$?
 nviol=$(grep -c '^VIOLATION' $out/check.log)
-sigs=$(grep -A1 '^VIOLATION' $out/check.log | grep signature | sort -u | head -5 | tr '\n' ' ')
+sigs=$(grep -h -o '"signature": {[^}]*}' /tmp/rp-$id/$prop/*.json 2>/dev/null | sort -u | head -8 | tr '\n' ' ')
+[ -z "$sigs" ] && sigs=$(grep -A1 '^VIOLATION' $out/check.log | grep signature | sort -u | head -5 | tr '\n' ' ')
 cat > $out/result.txt <<EOT
-id=$id property=$prop tier=$tier
+id=$id property=$prop tier=$tier base=$(git -C $wt rev-parse --short HEAD)
 demo_with_patch_rc=$rc_with (expect !=0)  demo_without_patch_rc=$rc_without (expect 0)  pkg_tests_rc=$rc_pkg (expect 0)
 check_rc=$rc_check violations=$nviol
 $sigs
